@@ -1,5 +1,6 @@
 import JmesVerif.Lemmas.Builtins
 import JmesVerif.Lemmas.F64Spec
+import JmesVerif.Lemmas.SumAvg
 /-!
 # C02 — every built-in function computes the value the specification defines
 
@@ -185,6 +186,17 @@ theorem C02_div_ieee (a b : F64) (ha : a.isFinite) (hb : b.isFinite) (hz : b.isZ
 /-- integers up to 2^53 enter the arithmetic exactly -/
 theorem C02_int_exact (k : Nat) (h : k ≤ 2 ^ 53) : (F64.ofNat k).isFinite ∧ (F64.ofNat k).toRat = (k : Rat) := F64.ofNat_exact k h
 
+/-- **sum is exact on integers** whose absolute values total at most 2^53 (no rounding can occur) -/
+theorem C02_sum_ints (ks : List Int) (h : (ks.map Int.natAbs).sum ≤ 2^53) :
+    ∃ r : F64, Builtin.pure .sum [.arr (ks.map intVal)] = .ok (.num (.flt r)) ∧ r.toRat = ((ks.sum : Int) : Rat) := sum_ints ks h
+/-- **avg of integers is the IEEE-rounded exact mean**, and exactly the mean when that is an integer -/
+theorem C02_avg_ints (ks : List Int) (hne : ks ≠ []) (h : (ks.map Int.natAbs).sum ≤ 2^53) (hl : ks.length ≤ 2^53) :
+    ∃ r : F64, Builtin.pure .avg [.arr (ks.map intVal)] = .ok (.num (.flt r)) ∧
+      F64.IEEERounded (((ks.sum : Int) : Rat) / (ks.length : Rat)) r := avg_ints ks hne h hl
+/-- each step of `sum` over any finite numbers is one IEEE rounding of the exact partial sum -/
+theorem C02_sum_step (acc : F64) (v : Val) (n : Num) (hv : v = .num n) (ha : acc.isFinite) (hn : n.toF64.isFinite) :
+    F64.IEEERounded (acc.toRat + n.toF64.toRat) (F64.add acc ((valNum v).getD F64.zero)) := sum_step acc v n hv ha hn
+
 /-! non-vacuity -/
 example : Homog [.str "b", .str "a"] := Or.inl (by intro x hx; simp at hx; rcases hx with rfl | rfl <;> exact ⟨_, rfl⟩)
 
@@ -219,3 +231,6 @@ end JmesVerif
 #print axioms JmesVerif.C02_add_ieee
 #print axioms JmesVerif.C02_div_ieee
 #print axioms JmesVerif.C02_int_exact
+#print axioms JmesVerif.C02_sum_ints
+#print axioms JmesVerif.C02_avg_ints
+#print axioms JmesVerif.C02_sum_step
